@@ -511,3 +511,39 @@ register(Contract(K + "Quantity.__round__", round_spec,
                   lambda: [Scenario("n", lambda I: dict(
                       self=qty_arg(), n_digits=sym_int("n_digits")))],
                   props=["C13"]))
+
+
+# ---------------------------------------------------------------------------
+# Quantity.__str__ / __format__ (C18): amount, a blank, the unit symbol
+def _text_form(h, q):
+    return z3.Concat(S.str_of_num(amount(h, q), amount_tag(h, q)),
+                     z3.StringVal(" "), symbol(h, unit_of(h, q)))
+
+
+def qty_str_spec(ctx: Ctx):
+    self = ctx.a("self")
+    h = ctx.pre
+    txt = _text_form(h, self.t)
+    return [wf_qty(h, self.t)], [Case("text", TRUE, ensures=[
+        ("amount-blank-symbol", lambda cx, o: isinstance(o.value, VStr) and
+         o.value.t == txt)], result=lambda cx: VStr(txt), props=["C18"])]
+
+
+register(Contract(K + "Quantity.__str__", qty_str_spec, _only_self,
+                  props=["C18"]))
+
+
+def qty_format_spec(ctx: Ctx):
+    self, spec = ctx.a("self"), ctx.a("fmt_spec")
+    h = ctx.pre
+    txt = _text_form(h, self.t)
+    empty = z3.Length(spec.t) == 0
+    return [wf_qty(h, self.t), empty], [Case("no-spec", empty, ensures=[
+        ("equals-str", lambda cx, o: isinstance(o.value, VStr) and
+         o.value.t == txt)], result=lambda cx: VStr(txt), props=["C18"])]
+
+
+register(Contract(K + "Quantity.__format__", qty_format_spec,
+                  lambda: [Scenario("empty-spec", lambda I: dict(
+                      self=qty_arg(), fmt_spec=VStr(z3.StringVal(""))))],
+                  props=["C18"]))
